@@ -544,6 +544,12 @@ pub struct SubRun {
     pub label: &'static str,
 }
 
+/// `n` earlier operations (so that later ones land in segments with multi-digit ids): alternating overwrites of two keys.
+pub fn long_prefix(n: usize) -> Vec<Op> {
+    use crate::keys::*;
+    (0..n).map(|i| Op::Put { k: (i % 2) as u8, c: if (i / 2) % 2 == 0 { C_X } else { C_Y }, ch: 0 }).collect()
+}
+
 pub fn big_alphabet() -> Vec<Op> {
     use crate::keys::*;
     vec![
@@ -570,6 +576,8 @@ pub fn plan(tier: &str) -> Vec<SubRun> {
         v.push(SubRun { cfg: c(2, false), prefix: shared.clone(), alphabet: ops::alphabet("crash"), depth: 2, nest: 1, label: "shared-prefix nested" });
         v.push(SubRun { cfg: c(3, false), prefix: three.clone(), alphabet: ops::alphabet("crash"), depth: 2, nest: 0, label: "three-keys" });
         v.push(SubRun { cfg: c(3, false), prefix: shared.clone(), alphabet: ops::alphabet("crash"), depth: 2, nest: 0, label: "restart in mid-segment" });
+        v.push(SubRun { cfg: c(2, false), prefix: long_prefix(19), alphabet: ops::alphabet("crash"), depth: 2, nest: 0, label: "segment ids 9 -> 10 (N=2, 19 earlier ops)" });
+        v.push(SubRun { cfg: c(1, false), prefix: long_prefix(9), alphabet: ops::alphabet("crash"), depth: 2, nest: 1, label: "segment ids 9 -> 10 (N=1, 9 earlier ops) nested" });
         v.push(SubRun { cfg: c(2, true), prefix: vec![], alphabet: ops::alphabet("crash"), depth: 2, nest: 1, label: "async nested" });
         v.push(SubRun { cfg: c(2, false), prefix: vec![], alphabet: big_alphabet(), depth: 2, nest: 1, label: "big records/blobs nested" });
         v.push(SubRun { cfg: c(10_000, false), prefix: vec![], alphabet: big_alphabet(), depth: 2, nest: 0, label: "big records/blobs" });
@@ -581,6 +589,10 @@ pub fn plan(tier: &str) -> Vec<SubRun> {
             v.push(SubRun { cfg: c(n, false), prefix: shared.clone(), alphabet: ops::alphabet("crash"), depth: 3, nest: 1, label: "shared-prefix nested" });
             v.push(SubRun { cfg: c(n, false), prefix: three.clone(), alphabet: ops::alphabet("crash"), depth: 3, nest: 0, label: "three-keys" });
             v.push(SubRun { cfg: c(n + 1, false), prefix: shared.clone(), alphabet: ops::alphabet("crash"), depth: 3, nest: 0, label: "restart in mid-segment" });
+            if n <= 3 {
+                v.push(SubRun { cfg: c(n, false), prefix: long_prefix(10 * n as usize - 1), alphabet: ops::alphabet("crash"), depth: 3, nest: 1, label: "segment ids 9 -> 10 nested" });
+                v.push(SubRun { cfg: c(n, false), prefix: long_prefix(100 * n as usize - 1), alphabet: ops::alphabet("crash"), depth: 2, nest: 0, label: "segment ids 99 -> 100" });
+            }
             v.push(SubRun { cfg: c(n, false), prefix: vec![], alphabet: big_alphabet(), depth: 3, nest: 1, label: "big records/blobs nested" });
         }
         v.push(SubRun { cfg: c(2, false), prefix: shared, alphabet: ops::alphabet("crash"), depth: 2, nest: 2, label: "nesting depth 3" });
@@ -671,11 +683,11 @@ pub fn validate_by_killing(cfg: &Cfg, opsq: &[Op], res: &mut WorkerResult) {
 
 /// A range removal over MANY keys is one operation (C03): `nkeys` keys sharing one blob, then `remove_range` over all or most
 /// of them, cut at every mutating call; the recovered store must hold either all keys or none of the range.
-pub fn many_keys_case(nkeys: usize, partial: bool, cfg: &Cfg, only_cut: Option<usize>, res: &mut WorkerResult) -> Vec<Violation> {
+pub fn many_keys_case(nkeys: usize, klen: usize, partial: bool, cfg: &Cfg, only_cut: Option<usize>, res: &mut WorkerResult) -> Vec<Violation> {
     use cassadilia::Cas;
     let mut vs = Vec::new();
     let dir = util::fresh_dir("many");
-    let key = |i: usize| format!("k{i:06}");
+    let key = |i: usize| format!("k{:0>width$}", i, width = klen.max(7) - 1);
     {
         let cas = real::open_cas::<String>(&dir, &cfg.config()).expect("open");
         for i in 0..nkeys {
@@ -695,7 +707,7 @@ pub fn many_keys_case(nkeys: usize, partial: bool, cfg: &Cfg, only_cut: Option<u
     });
     IN_PLACE.lock().unwrap().clear();
     util::rm_rf(&dir);
-    let case = |cut: usize| json!({"engine": "crash", "kind": "many-keys", "nkeys": nkeys, "partial": partial, "cfg": cfg, "cut": cut});
+    let case = |cut: usize| json!({"engine": "crash", "kind": "many-keys", "nkeys": nkeys, "klen": klen, "partial": partial, "cfg": cfg, "cut": cut});
     match r {
         Ok(n) if n == hi - lo => {}
         other => {
@@ -731,7 +743,7 @@ pub fn many_keys_case(nkeys: usize, partial: bool, cfg: &Cfg, only_cut: Option<u
         };
         util::rm_rf(&d2);
         if let Some((o, d)) = finding {
-            let mut v = Violation::new(&["C03"], &o, format!("[{}] {nkeys} keys sharing one blob, remove_range over {} of them, killed before mutating call #{ci} {}: {d}", cfg.show(), hi - lo, s.call));
+            let mut v = Violation::new(&["C03"], &o, format!("[{}] {nkeys} keys of {klen} bytes sharing one blob, remove_range over {} of them, killed before mutating call #{ci} {}: {d}", cfg.show(), hi - lo, s.call));
             v.sig = format!("{o}|many-keys");
             v.replay = case(ci);
             vs.push(v);
@@ -745,10 +757,15 @@ pub fn run(tier: &str, slice: (u64, u64), seed: u64) -> WorkerResult {
     let mut res = WorkerResult::new("crash");
     // one "many keys" range removal per worker (record sizes above 8 KiB / 64 KiB, key counts above 1024 / 4096 ...)
     {
-        let sizes: Vec<usize> = if tier == "quick" { vec![700, 1100, 2100, 4200] } else { vec![700, 1100, 2100, 4200, 9000, 17000, 33000, 66000] };
-        if let Some(&nk) = sizes.get(slice.0 as usize) {
+        // (number of keys, key length): log records of 8 KB .. 1.35 MB (thorough: .. 4.5 MB)
+        let sizes: Vec<(usize, usize)> = if tier == "quick" {
+            vec![(700, 7), (1100, 7), (2100, 7), (6500, 7), (150, 9000)]
+        } else {
+            vec![(700, 7), (1100, 7), (2100, 7), (4200, 7), (6500, 7), (9000, 7), (17000, 7), (33000, 7), (66000, 7), (150, 9000), (500, 9000), (40, 70_000)]
+        };
+        if let Some(&(nk, kl)) = sizes.get(slice.0 as usize) {
             for partial in [false, true] {
-                for v in many_keys_case(nk, partial, &Cfg { n: if nk % 2 == 0 { 10_000 } else { 64 }, async_mode: false }, None, &mut res) {
+                for v in many_keys_case(nk, kl, partial, &Cfg { n: if nk % 2 == 0 { 10_000 } else { 64 }, async_mode: false }, None, &mut res) {
                     res.violate(v);
                 }
             }
@@ -820,7 +837,7 @@ pub fn replay(case: &Value) -> Vec<Violation> {
     let cfg: Cfg = serde_json::from_value(case["cfg"].clone()).expect("cfg");
     if case["kind"].as_str() == Some("many-keys") {
         let mut res = WorkerResult::new("crash");
-        return many_keys_case(case["nkeys"].as_u64().unwrap() as usize, case["partial"].as_bool().unwrap(), &cfg, case["cut"].as_u64().map(|c| c as usize), &mut res);
+        return many_keys_case(case["nkeys"].as_u64().unwrap() as usize, case["klen"].as_u64().unwrap_or(7) as usize, case["partial"].as_bool().unwrap(), &cfg, case["cut"].as_u64().map(|c| c as usize), &mut res);
     }
     if let Some(k) = case["exdev_at"].as_u64() {
         EXDEV_AT.store(k, std::sync::atomic::Ordering::Relaxed);
